@@ -84,40 +84,171 @@ Proof.
   exists s. split; auto. eapply nth_error_In; eauto.
 Qed.
 
-Theorem convert_has_type : forall t v v', convert t v = Ok v' -> has_type t v'.
+Lemma conv_set_u64_type : forall vals u v, conv_set_u64 vals u = Ok v ->
+  exists b, v = GI KUint64 b /\ b <= set_all vals.
 Proof.
-  intros t v v' H. unfold convert in H.
-  destruct v as [|b|k z|n d|n d|s|s]; try discriminate; destruct t as [|lo hi n1|lo hi|lo hi|vals|c vals| |o];
-    try discriminate; simpl in H; simpl.
-  (* GNil *)
-  - inversion H. eauto.
-  (* GBool *)
+  intros vals u v H. unfold conv_set_u64 in H.
+  destruct (u <=? set_all vals) eqn:E; inversion H. exists u. split; auto. apply Z.leb_le. auto.
+Qed.
+
+(* OR-ing member bits stays inside the bit field of all members *)
+Lemma lor_le_all : forall n a b, 0 <= a <= 2 ^ Z.of_nat n - 1 -> 0 <= b <= 2 ^ Z.of_nat n - 1 ->
+  0 <= Z.lor a b <= 2 ^ Z.of_nat n - 1.
+Proof.
+  intros n a b Ha Hb. assert (Hn : 0 <= Z.of_nat n) by lia.
+  assert (P : 0 < 2 ^ Z.of_nat n) by (apply Z.pow_pos_nonneg; lia).
+  split.
+  - apply Z.lor_nonneg. lia.
+  - assert (L : Z.lor a b < 2 ^ Z.of_nat n).
+    { destruct (Z.eq_dec (Z.lor a b) 0) as [E|E]; [lia|].
+      assert (Hpos : 0 < Z.lor a b) by (pose proof (proj2 (Z.lor_nonneg a b) (conj (proj1 Ha) (proj1 Hb))); lia).
+      destruct n as [|m].
+      { simpl in Ha, Hb. assert (a = 0) by lia. assert (b = 0) by lia. subst. simpl in E. contradiction. }
+      apply Z.log2_lt_pow2; auto. rewrite Z.log2_lor by lia.
+      apply Z.max_lub_lt.
+      - destruct (Z.eq_dec a 0) as [->|Na]; [simpl; lia|]. apply Z.log2_lt_pow2; lia.
+      - destruct (Z.eq_dec b 0) as [->|Nb]; [simpl; lia|]. apply Z.log2_lt_pow2; lia. }
+    lia.
+Qed.
+
+Lemma member_index_lt : forall vals l i k, member_index vals l i = Some k -> (k < i + length vals)%nat.
+Proof.
+  induction vals as [|x r IH]; intros l i k H; simpl in H; [discriminate|].
+  destruct (String.eqb (lower (trim_right x)) l).
+  - inversion H. subst. simpl. lia.
+  - apply IH in H. simpl. lia.
+Qed.
+
+Lemma pow2_le_all : forall n k, (k < n)%nat -> 0 <= 2 ^ Z.of_nat k <= 2 ^ Z.of_nat n - 1.
+Proof.
+  intros n k H. split; [apply Z.pow_nonneg; lia|].
+  assert (2 ^ Z.of_nat k < 2 ^ Z.of_nat n) by (apply Z.pow_lt_mono_r; lia). lia.
+Qed.
+
+Lemma is_member_bit_le : forall n u, is_member_bit n u = true -> 0 <= u <= 2 ^ Z.of_nat n - 1.
+Proof.
+  induction n as [|m IH]; intros u H; simpl in H; [discriminate|].
+  apply orb_true_iff in H as [H|H].
+  - apply Z.eqb_eq in H. subst. apply pow2_le_all. lia.
+  - apply IH in H. assert (2 ^ Z.of_nat m <= 2 ^ Z.of_nat (S m)) by (apply Z.pow_le_mono_r; lia). lia.
+Qed.
+
+Lemma set_elem_le : forall vals e b, set_elem vals e = Some b -> 0 <= b <= set_all vals.
+Proof.
+  intros vals e b H. unfold set_elem in H. unfold set_all.
+  destruct (member_index vals (lower (trim_right e)) 0) as [i|] eqn:E.
+  - inversion H. subst. apply member_index_lt in E. apply pow2_le_all. lia.
+  - destruct (parse_uint e) as [u|]; [|discriminate].
+    destruct (u =? 0) eqn:Z0.
+    + inversion H. subst. split; [lia|]. assert (0 < 2 ^ Z.of_nat (length vals)) by (apply Z.pow_pos_nonneg; lia). lia.
+    + destruct (is_member_bit (length vals) u) eqn:M; [|discriminate]. inversion H. subst.
+      apply is_member_bit_le. auto.
+Qed.
+
+Lemma set_elems_le : forall vals es acc b, 0 <= acc <= set_all vals -> set_elems vals es acc = Some b ->
+  0 <= b <= set_all vals.
+Proof.
+  intros vals es. induction es as [|e r IH]; intros acc b Ha H; simpl in H.
+  - inversion H. subst. auto.
+  - destruct e as [|c e'].
+    + eapply IH; eauto.
+    + destruct (set_elem vals (String c e')) as [x|] eqn:E; [|discriminate].
+      eapply IH; [|exact H]. apply set_elem_le in E. unfold set_all in *. apply lor_le_all; auto.
+Qed.
+
+Lemma conv_bool_type : forall v v', conv_bool v = Ok v' -> has_type TBool v'.
+Proof.
+  intros v v' H. destruct v as [|b|k z|n d|n d|s|s]; simpl in H; try discriminate; simpl.
   - inversion H. destruct b; auto.
-  (* GI *)
   - eapply conv_bool_i64_type; eauto.
-  - eapply conv_int_i64_type; eauto.
-  - eapply conv_uint_u64_type; eauto.
-  - destruct (Z.abs z <=? two53); [|discriminate]. eapply conv_double_q_type; eauto.
-  - eapply conv_enum_idx_type; eauto.
-  (* GF *)
   - destruct (float_i64 n d); [|discriminate]. eapply conv_bool_i64_type; eauto.
-  - destruct (float_i64 n d); [|discriminate]. eapply conv_int_i64_type; eauto.
-  - destruct (float_u64 n d); [|discriminate]. eapply conv_uint_u64_type; eauto.
-  - eapply conv_double_q_type; eauto.
-  - destruct (float_i64 n d); [|discriminate]. eapply conv_enum_idx_type; eauto.
-  (* GD *)
   - destruct (float_i64 n d); [|discriminate]. eapply conv_bool_i64_type; eauto.
-  - destruct (float_i64 n d); [|discriminate]. eapply conv_int_i64_type; eauto.
-  - eapply conv_uint_u64_type; eauto.
-  - eapply conv_double_q_type; eauto.
-  - destruct (float_i64 n d); [|discriminate]. eapply conv_enum_idx_type; eauto.
-  (* GS *)
   - destruct (String.eqb (lower s) "on" || String.eqb (lower s) "true")%bool; [inversion H; auto|].
     destruct (String.eqb (lower s) "off" || String.eqb (lower s) "false")%bool; inversion H; auto.
+Qed.
+
+Lemma conv_int_type : forall lo hi n1 v v', conv_int lo hi n1 v = Ok v' -> has_type (TInt lo hi n1) v'.
+Proof.
+  intros lo hi n1 v v' H. destruct v as [|b|k z|n d|n d|s|s]; simpl in H; try discriminate; simpl.
+  - eapply conv_int_i64_type; eauto.
+  - destruct (float_i64 n d); [|discriminate]. eapply conv_int_i64_type; eauto.
+  - destruct (float_i64 n d); [|discriminate]. eapply conv_int_i64_type; eauto.
   - destruct (parse_int s); [|discriminate]. eapply conv_int_i64_type; eauto.
+Qed.
+
+Lemma conv_uint_type : forall lo hi v v', conv_uint lo hi v = Ok v' -> has_type (TUint lo hi) v'.
+Proof.
+  intros lo hi v v' H. destruct v as [|b|k z|n d|n d|s|s]; simpl in H; try discriminate; simpl.
+  - eapply conv_uint_u64_type; eauto.
+  - destruct (float_u64 n d); [|discriminate]. eapply conv_uint_u64_type; eauto.
+  - eapply conv_uint_u64_type; eauto.
+Qed.
+
+Lemma conv_double_type : forall lo hi v v', conv_double lo hi v = Ok v' -> has_type (TDouble lo hi) v'.
+Proof.
+  intros lo hi v v' H. destruct v as [|b|k z|n d|n d|s|s]; simpl in H; try discriminate; simpl.
+  - destruct (Z.abs z <=? two53); [|discriminate]. eapply conv_double_q_type; eauto.
+  - eapply conv_double_q_type; eauto.
+  - eapply conv_double_q_type; eauto.
+Qed.
+
+Lemma conv_enum_type : forall vals v v', conv_enum vals v = Ok v' -> has_type (TEnum vals) v'.
+Proof.
+  intros vals v v' H. destruct v as [|b|k z|n d|n d|s|s]; simpl in H; try discriminate; simpl.
+  - eapply conv_enum_idx_type; eauto.
+  - destruct (float_i64 n d); [|discriminate]. eapply conv_enum_idx_type; eauto.
+  - destruct (float_i64 n d); [|discriminate]. eapply conv_enum_idx_type; eauto.
   - destruct (enum_index vals (lower s) 0 None) as [i|]; [|discriminate].
     destruct (nth_error vals i) eqn:E; inversion H. exists s0. split; auto. eapply nth_error_In; eauto.
-  - inversion H. eauto.
+Qed.
+
+Lemma conv_string_type : forall v v', conv_string v = Ok v' -> has_type TString v'.
+Proof.
+  intros v v' H. destruct v as [|b|k z|n d|n d|s|s]; simpl in H; try discriminate; simpl; inversion H; eauto.
+Qed.
+
+Lemma conv_set_type : forall c vals v v', conv_set vals v = Ok v' -> has_type (TSet c vals) v'.
+Proof.
+  intros c vals v v' H. destruct v as [|b|k z|n d|n d|s|s]; simpl in H; try discriminate; simpl.
+  - eapply conv_set_u64_type; eauto.
+  - destruct (float_i64 n d); [|discriminate]. eapply conv_set_u64_type; eauto.
+  - destruct (float_i64 n d); [|discriminate]. eapply conv_set_u64_type; eauto.
+  - destruct (set_elems vals (split_comma s) 0) as [b|] eqn:E; inversion H. exists b. split; auto.
+    apply set_elems_le in E; [lia|]. unfold set_all.
+    assert (0 < 2 ^ Z.of_nat (length vals)) by (apply Z.pow_pos_nonneg; lia). lia.
+Qed.
+
+Lemma conv_u32_type : forall v v', conv_u32 v = Ok v' ->
+  v' = GNil \/ exists z, v' = GI KUint32 z /\ 0 <= z < two32.
+Proof.
+  intros v v' H. destruct v as [|b|k z|n d|n d|s|s]; cbn [conv_u32] in H; try discriminate.
+  - inversion H. auto.
+  - inversion H. right. exists (if b then 1 else 0). split; [reflexivity|unfold two32; destruct b; lia].
+  - right. set (n := if two63 <=? z then two63 - 1 else z) in *.
+    destruct (two32 <=? n) eqn:A.
+    + inversion H. exists (two32 - 1). split; [reflexivity|unfold two32; lia].
+    + destruct (n <? 0) eqn:B; inversion H.
+      * exists (n mod two32). split; [reflexivity|apply Z.mod_pos_bound; unfold two32; lia].
+      * exists n. split; [reflexivity|apply Z.leb_gt in A; apply Z.ltb_ge in B; lia].
+Qed.
+
+Theorem convert_has_type : forall t v v', convert t v = Ok v' -> has_type t v'.
+Proof.
+  intros t v v' H.
+  assert (Hc : conv t v = Ok v').
+  { unfold convert in H. destruct v; try exact H. discriminate. }
+  clear H. destruct t as [|lo hi n1|lo hi|lo hi|vals|c vals| |o]; simpl in Hc.
+  - eapply conv_bool_type; eauto.
+  - eapply conv_int_type; eauto.
+  - eapply conv_uint_type; eauto.
+  - eapply conv_double_type; eauto.
+  - eapply conv_enum_type; eauto.
+  - eapply conv_set_type; eauto.
+  - eapply conv_string_type; eauto.
+  - simpl. destruct (String.eqb o "types.Uint32").
+    + eapply conv_u32_type; eauto.
+    + destruct (String.eqb o "types.Text"); [|discriminate].
+      destruct v as [|b|k z|n d|n d|s|s]; simpl in Hc; try discriminate; inversion Hc; eauto.
 Qed.
 
 (* ---------- validation is exact on integers that need no wrapping ---------- *)
